@@ -450,6 +450,8 @@ type gatedBody struct {
 	ctx    context.Context
 	inRead chan struct{}
 	once   sync.Once
+	closed chan struct{} // closed by Close (optional)
+	conce  sync.Once
 }
 
 func (b *gatedBody) Read(p []byte) (int, error) {
@@ -462,7 +464,12 @@ func (b *gatedBody) Read(p []byte) (int, error) {
 	<-b.ctx.Done()
 	return 0, b.ctx.Err()
 }
-func (b *gatedBody) Close() error { return nil }
+func (b *gatedBody) Close() error {
+	if b.closed != nil {
+		b.conce.Do(func() { close(b.closed) })
+	}
+	return nil
+}
 
 // runC04Extra: (1) handlers that return a bare context error while the caller's
 // context is alive; (2) the context ends while the reply body is only partly there.
@@ -694,9 +701,93 @@ func runC04Extra(e *core.Env) {
 	})
 }
 
+// runC04Descheduled: a unary call over HTTP whose goroutine is held between the reply's headers and the wait
+// for its body (the library's schedule point there) while the context ends and the body reader, which net/http
+// fails with the context's error, finishes first. When the caller's goroutine goes on, both "context ended" and
+// "body read finished (with an error)" are true: the call reports the cancellation as a status either way.
+// The choice between the two is the runtime's, so each case is repeated.
+func runC04Descheduled(e *core.Env) {
+	installHooks()
+	e.Cases("partial-body-descheduled", e.N(12, 120), func(i int, r *rand.Rand) {
+		mode := []string{"cancel", "deadline"}[i%2]
+		want := codes.Canceled
+		if mode == "deadline" {
+			want = codes.DeadlineExceeded
+		}
+		full, _ := proto.Marshal(&tpb.Message{Payload: randBytes(r, 10+r.Intn(200))})
+		cut := 1 + r.Intn(len(full)-1)
+		for rep := 0; rep < 10; rep++ {
+			id := fmt.Sprintf("desched-%d-%d-%d", i, rep, r.Int63())
+			plan := newHookPlan()
+			plan.parkPt, plan.parkNth = "http.unary.before-select", 1
+			hookPlans.Store(id, plan)
+			vd := newVD()
+			var parent context.Context = context.Background()
+			cancel := func() {}
+			if mode == "deadline" {
+				parent = vd
+			} else {
+				parent, cancel = context.WithCancel(parent)
+			}
+			parent = metadata.AppendToOutgoingContext(parent, runKey, id)
+			closed := make(chan struct{})
+			ch := &httpgrpc.Channel{BaseURL: mustURL("http://c04.test/"), Transport: rtFunc(func(rq *http.Request) (*http.Response, error) {
+				body := &gatedBody{first: append([]byte{}, full[:cut]...), ctx: rq.Context(), inRead: make(chan struct{}), closed: closed}
+				h := http.Header{}
+				h.Set("Content-Type", httpgrpc.UnaryRpcContentType_V1)
+				h.Set("Content-Length", fmt.Sprint(len(full)))
+				return &http.Response{StatusCode: 200, Header: h, Body: body, Request: rq, ProtoMajor: 1, ProtoMinor: 1}, nil
+			})}
+			res := make(chan error, 1)
+			go func() { res <- ch.Invoke(parent, Unary.Method(), &tpb.Message{}, new(tpb.Message)) }()
+			placed := false
+			select {
+			case <-plan.parked:
+				placed = true
+			case <-time.After(watchdog):
+			}
+			if mode == "deadline" {
+				vd.Fire()
+			} else {
+				cancel()
+			}
+			if placed {
+				// the body reader has finished (it closes the body when it has)
+				select {
+				case <-closed:
+				case <-time.After(5 * time.Second):
+					placed = false
+				}
+			}
+			plan.Release()
+			hookPlans.Delete(id)
+			var err error
+			select {
+			case err = <-res:
+			case <-time.After(watchdog):
+				e.Inconclusive("C04 partial-body-descheduled: Invoke did not return")
+				cancel()
+				return
+			}
+			cancel()
+			if !placed {
+				e.Inconclusive("C04 partial-body-descheduled: placement not reached")
+				return
+			}
+			e.Eval("partial-body-descheduled|"+mode, true)
+			e.Count("descheduled_placements", 1)
+			if st, isSt := status.FromError(err); err == nil || !isSt || st.Code() != want {
+				e.Violate("http/unary/partial-body-descheduled/"+mode, fmt.Sprintf("the context ended (%s) while %d of %d reply-body bytes had arrived and the caller's goroutine was between the reply's headers and its wait for the body: Invoke returned %v (%T), want a status with code %v", mode, cut, len(full), err, err, want), map[string]any{"mode": mode, "cut": cut, "repetition": rep})
+				return
+			}
+		}
+	})
+}
+
 func runC04(e *core.Env, nScripts, maxHooks int) {
 	curEnv = e
 	runC04Extra(e)
+	runC04Descheduled(e)
 	inp := NewInproc(&Service{}, carrierOpt{})
 	htt := NewHTTPServer(&Service{}, carrierOpt{})
 	defer inp.Close()
